@@ -20,7 +20,7 @@ type Op struct {
 	Dim  int   `json:",omitempty"`
 	St   int   `json:",omitempty"`
 	N    int   `json:",omitempty"` // number of values for apply/apply1
-	Via  int   `json:",omitempty"` // 0 generic Get/Set, 1 rank-specific Get1/2/3 / Set1/2/3
+	Via  int   `json:",omitempty"` // 0 generic Get/Set, 1 rank-specific Get1/2/3 / Set1/2/3, 2 Get1 along the series dimension of a higher-rank view
 	// source operand of applySlice/copyFrom: a view of a second root
 	SrcRoot []int `json:",omitempty"`
 	SrcLoc  []int `json:",omitempty"`
@@ -110,6 +110,17 @@ func Gen(t *rapid.T) Case {
 			}
 			if rank <= 3 && !mv.RankReduced() {
 				op.Via = rapid.IntRange(0, 1).Draw(t, "via")
+			}
+			if op.Kind == "get" && rank > 1 && !mv.RankReduced() && rapid.IntRange(0, 5).Draw(t, "series") == 0 {
+				// Get1 on a view of higher rank reads along its first dimension of extent > 1 (a series kept
+				// in a [1, n, 1] block), all other indices zero
+				op.Via = 2
+				k := SeriesDim(mv.Shape)
+				for d := range op.Loc {
+					if d != k {
+						op.Loc[d] = 0
+					}
+				}
 			}
 		case "apply":
 			op.Dim = rapid.IntRange(0, rank-1).Draw(t, "dim")
@@ -261,6 +272,8 @@ func Exec(c Case, trace *[]string) (r pbt.Result) {
 			var got float64
 			perr = guarded(func() {
 				switch {
+				case op.Via == 2:
+					got = rv.Get1(op.Loc[SeriesDim(mv.Shape)])
 				case op.Via == 1 && len(op.Loc) == 1:
 					got = rv.Get1(op.Loc[0])
 				case op.Via == 1 && len(op.Loc) == 2:
@@ -380,4 +393,14 @@ func min(a, b int) int {
 		return a
 	}
 	return b
+}
+
+// SeriesDim is the first dimension of extent > 1 (0 when there is none).
+func SeriesDim(shape []int) int {
+	for d, n := range shape {
+		if n > 1 {
+			return d
+		}
+	}
+	return 0
 }
